@@ -833,3 +833,96 @@ def limit_setters_only_lower(prog, rule, files, floor=2):
     if n < floor:
         raise AnalysisBroken('limit setters: only %d found' % n)
     return n
+
+
+def hash_key_conversions_agree(prog, rule):
+    """The typed front ends of the hash table (lookup / insert / remove ... for int and for uintptr keys) turn their key
+    into the table's pointer-sized key in one and the same way: the written casts around the key agree among the
+    siblings of a key kind.  A key stored under one conversion and removed under another is not found for the values
+    on which the conversions differ (negative ints: sign- versus zero-extension)."""
+    from .cfg import is_ref, walk, estr
+    H = 'dbus/dbus-hash.c'
+    n = 0
+    for kind in ('int', 'uintptr'):
+        convs = {}
+        for f in prog.funcs.values():
+            if f.file != H or not prog.is_production(f) or not f.name.startswith('_dbus_hash_table_') \
+                    or not f.name.endswith('_' + kind):
+                continue
+            keyp = [p for p in f.params if p['name'] == 'key']
+            if not keyp:
+                continue
+            kid = keyp[0]['id']
+            for b, i, c in f.calls():
+                for a in c['args']:
+                    x = a
+                    if is_ref(x) and x.get('id') == kid:
+                        convs.setdefault(f.name, set()).add(tuple(x.get('xc') or ()))
+            for b, i, ev in f.events():
+                if ev['ev'] == 'assign':
+                    x = ev['e']['r']
+                    if isinstance(x, dict) and is_ref(x) and x.get('id') == kid:
+                        convs.setdefault(f.name, set()).add(tuple(x.get('xc') or ()))
+        if len(convs) < 2:
+            raise AnalysisBroken('hash table front ends for %s keys not found (%d)' % (kind, len(convs)))
+        allc = set()
+        for v in convs.values():
+            allc |= v
+        for fname, v in sorted(convs.items()):
+            n += 1
+            key = '%s:key-conversion' % fname
+            # the majority conversion is the reference
+            common = max(allc, key=lambda c2: sum(1 for w in convs.values() if c2 in w))
+            if v != {common}:
+                f = prog.fn(fname, H)
+                rule.violation(key, fname, H, f.line, '%s converts its key with the casts (%s) where its siblings use (%s): '
+                               'a key stored by one is not found by the other when the conversions differ (negative '
+                               'values)' % (fname, ' / '.join(', '.join(c2) or 'none' for c2 in sorted(v)),
+                                            ', '.join(common) or 'none'))
+            else:
+                rule.ok(key, {'casts': list(common)})
+    return n
+
+
+def callbacks_paired_with_their_data(prog, rule, fnames):
+    """A callback is called with the user data that was registered together with it: in the functions that replace a
+    (function, data) registration, every call through a function taken from the object is given the data taken from the
+    object, every call through a function parameter the data parameter."""
+    from .cfg import is_ref, estr, is_member
+    n = 0
+    for fname, file in fnames:
+        f = prog.fn(fname, file)
+        datap = [p for p in f.params if p['name'] == 'data']
+        if not datap:
+            raise AnalysisBroken('%s: no data parameter' % fname)
+
+        def src(e):
+            while isinstance(e, dict) and e.get('k') in ('paren', 'cast'):
+                e = e['e']
+            while isinstance(e, dict) and e.get('k') == 'un' and e.get('op') == '*':
+                e = e['e']
+            if is_ref(e) and e.get('kind') == 'param':
+                return 'param'
+            if isinstance(e, dict) and e.get('k') == 'member' and is_ref(e.get('base')) and e['base'].get('kind') == 'param':
+                return 'object'
+            return None
+        for b, i, c in f.calls():
+            fe = de = None
+            if c.get('callee') is None and c.get('fn') is not None and c['args']:
+                fe, de = c['fn'], c['args'][-1]
+            elif c.get('callee') == '_dbus_list_foreach' and len(c['args']) == 3:
+                fe, de = c['args'][1], c['args'][2]
+            if fe is None:
+                continue
+            sf, sd = src(fe), src(de)
+            if sf is None or sd is None:
+                continue
+            n += 1
+            key = '%s:%s@%d' % (fname, estr(fe)[:50], c['line'])
+            if sf != sd:
+                rule.violation(key, fname, file, c['line'], '%s is called with %s: the %s callback is given the %s data' % (
+                    estr(fe), estr(de), 'previously registered' if sf == 'object' else 'new',
+                    'new' if sd == 'param' else 'previously registered'))
+            else:
+                rule.ok(key)
+    return n
